@@ -611,6 +611,11 @@ pub fn check_module(m: &dr::Module, st: &mut Stats, decoded: &dyn Fn() -> String
     Ok(())
 }
 
+/// `modules` with result ids occasionally 0 / 0x7fffffff / 0x80000000 / 0xffffffff
+fn sub_edge_ids(input: &[u8], st: &mut Stats) -> R {
+    with_edge_ids(|| sub_modules(input, st))
+}
+
 fn sub_modules(input: &[u8], st: &mut Stats) -> R {
     let mut cs = Cs::new(input);
     let mode = if cs.bool() { ModMode::Ordered } else { ModMode::Interleaved };
@@ -726,6 +731,7 @@ pub const SUBS: &[Sub] = &[
     Sub { name: "sweep", f: sub_sweep },
     Sub { name: "modules", f: sub_modules },
     Sub { name: "neighbours", f: sub_neighbours },
+    Sub { name: "edge-ids", f: sub_edge_ids },
 ];
 
 pub fn run(ctx: &Ctx) {
@@ -733,6 +739,7 @@ pub fn run(ctx: &Ctx) {
     drive_enum(ctx, &SUBS[0], crate::sweep::cases().len() as u64);
     drive_random(ctx, &SUBS[1], ctx.n(30_000, 15_000_000), 2000);
     drive_random(ctx, &SUBS[2], ctx.n(20_000, 10_000_000), 1500);
+    drive_random(ctx, &SUBS[3], ctx.n(8_000, 4_000_000), 2000);
 }
 
 pub fn finish(ctx: &Ctx) -> i32 {
